@@ -42,3 +42,13 @@ type Snap interface{}
 
 func Snapshot(v interface{}) Snap
 func Same(a, b Snap) bool
+
+// FireTimers fires up to n pending timer events (ticker ticks, context deadlines); returns how many fired.
+func FireTimers(n int) int
+
+// Tickers is the number of time.Tick tickers created so far; TickInterval(i) the i-th one's interval.
+func Tickers() int
+func TickInterval(i int) time.Duration
+
+// FireTicker delivers one tick of the i-th ticker created so far.
+func FireTicker(i int) bool
